@@ -24,7 +24,7 @@ type Term struct {
 	Fn   *ssa.Function // static callee for calls, function for closure/func
 }
 
-const maxTermDepth = 14
+const maxTermDepth = 24
 
 // TermOf renders v.
 func TermOf(v ssa.Value) *Term { return termOf(v, 0, map[ssa.Value]bool{}) }
@@ -61,6 +61,12 @@ func termOf(v ssa.Value, depth int, onpath map[ssa.Value]bool) *Term {
 	case *ssa.FieldAddr:
 		st := derefStruct(x.X.Type())
 		f := st.Field(x.Field)
+		// field of a struct-valued field of a local composite: x := T{F: v}; x.F.G  reads  v.G
+		if inner, ok := x.X.(*ssa.FieldAddr); ok {
+			if cv := fieldCellValue(inner); cv != nil {
+				return &Term{Op: "field", Name: f.Name(), Fld: f, Args: []*Term{rec(cv)}, V: v}
+			}
+		}
 		if a, ok := x.X.(*ssa.Alloc); ok {
 			if ss := singleStore(a); ss != nil && len(allocStores(a)) == 1 {
 				// cell holds a copy of another value: field of that value
@@ -482,6 +488,46 @@ func forwardedStore(load *ssa.UnOp) ssa.Value {
 		case ssa.CallInstruction:
 			return nil
 		}
+	}
+	return nil
+}
+
+// fieldCellValue returns the value stored into the field cell fa = &alloc.F when the local
+// composite alloc is written field by field and F is stored exactly once (composite literal).
+func fieldCellValue(fa *ssa.FieldAddr) ssa.Value {
+	al, ok := fa.X.(*ssa.Alloc)
+	if !ok {
+		return nil
+	}
+	if singleStore(al) != nil {
+		return nil
+	}
+	var val ssa.Value
+	n := 0
+	refs := al.Referrers()
+	if refs == nil {
+		return nil
+	}
+	for _, r := range *refs {
+		switch x := r.(type) {
+		case *ssa.Store:
+			if x.Addr == ssa.Value(al) {
+				return nil // whole-cell store as well
+			}
+		case *ssa.FieldAddr:
+			if x.Field != fa.Field || x.Referrers() == nil {
+				continue
+			}
+			for _, rr := range *x.Referrers() {
+				if st, ok := rr.(*ssa.Store); ok && st.Addr == ssa.Value(x) {
+					n++
+					val = st.Val
+				}
+			}
+		}
+	}
+	if n == 1 {
+		return val
 	}
 	return nil
 }
